@@ -21,8 +21,9 @@ i.e. like a circle without number, where rule 3 as written admits no solution.  
 import itertools
 
 NAME = "nurimisaki"
-STATUS = "model+differential"
-THEOREMS = []
+STATUS = "theorem"
+THEOREMS = ["Cspuz.C11.Nurimisaki.program_iff_rules", "Cspuz.C11.Nurimisaki.total"]
+LEAN_FILE = "C11_Nurimisaki"
 LEAN_CMD = "puz_nurimisaki"
 
 _SIZES = [(1, 1), (1, 2), (2, 1), (1, 3), (3, 1), (2, 2), (2, 3), (3, 2), (1, 4), (4, 1), (3, 3), (2, 4), (4, 2), (3, 4), (4, 3)]
